@@ -773,6 +773,9 @@ func (mpt *MerklePatriciaTrie) insertAfterPathTraversal(value MPTSerializable, n
 func (mpt *MerklePatriciaTrie) deleteAfterPathTraversal(node Node) (Node, Key, error) {
 	switch nodeImpl := node.(type) {
 	case *FullNode:
+		if !nodeImpl.HasValue() {
+			return nil, nil, ErrValueNotPresent // There is nothing to delete
+		}
 		// The value of the branch needs to be updated
 		nnode := nodeImpl.Clone().(*FullNode)
 		nnode.SetValue(nil)
@@ -781,6 +784,10 @@ func (mpt *MerklePatriciaTrie) deleteAfterPathTraversal(node Node) (Node, Key, e
 		// }
 		return mpt.insertNode(node, nnode)
 	case *LeafNode:
+		if len(nodeImpl.Path) > 0 {
+			// the leaf holds a longer path
+			return nil, nil, ErrValueNotPresent // There is nothing to delete
+		}
 		// if nodeImpl.HasValue() {
 		// 	mpt.ChangeCollector.DeleteChange(nodeImpl.Value)
 		// }
@@ -789,7 +796,8 @@ func (mpt *MerklePatriciaTrie) deleteAfterPathTraversal(node Node) (Node, Key, e
 		}
 		return nil, nil, nil
 	case *ExtensionNode:
-		panic("this should not happen!")
+		// no value is stored at an extension
+		return nil, nil, ErrValueNotPresent // There is nothing to delete
 	default:
 		panic(fmt.Sprintf("unknown node type: %T %v", node, node))
 	}
